@@ -69,6 +69,9 @@ var otherTokens = []tokDef{
 	{"HEB = /[\\x05D0-\\x05EA]+/", "HEB", []string{"שלום", "א"}},
 	// a state that is not accepting and has the highest number (the text after the dot), large symbol classes
 	{"PATH = /[A-Z]+(\\.[A-Z]+)*/", "PATH", []string{"A", "AB.C", "X.Y.Z"}},
+	// the same repetition as ID behind a prefix; a string whose characters are all but two ASCII ones plus a non-ASCII one
+	{"VAR = /\\$[a-z][a-z0-9_]*/", "VAR", []string{"$a", "$abc", "$x9_y"}},
+	{"QSTR = /'([^'\\x0A]|\\x00E9)*'/", "QSTR", []string{"''", "'abc'", "'é x'"}},
 	{"CSV = /%[0-9]+(,[0-9]+)*/", "CSV", []string{"%1", "%1,22", "%0,0,0"}},
 	{"GREEK = /\\p{Greek}+/", "GREEK", []string{"αβγ", "\u0370\u03ff", "ἀ\u1ffe", "ϿͰ"}},
 	{"HAN = /[\\x4E00-\\x9FFF]+/", "HAN", []string{"漢字", "\u4e00\u9fff", "\u9fff"}},
@@ -90,6 +93,8 @@ var commentVariants = [][]tokDef{
 	{{"COMMENT = /#[a-z ]*/", "COMMENT", []string{"#", "# note", "#abc def"}}},
 	{{"CMT = /#[a-z ]*/", "CMT", []string{"#", "# kept"}}},
 	{{"COMMENT = /\\x2F\\x2F[a-z ]*/", "COMMENT", []string{"//", "// c"}}},
+	// a skipped token with characters of several bytes (positions after it are counted in one unit throughout)
+	{{"COMMENT = /#[a-z \\x00E9\\x4E2D]*/", "COMMENT", []string{"#", "# café", "#中文 é"}}},
 }
 
 type specGen struct {
@@ -587,6 +592,36 @@ func TestBoundarySweep(t *testing.T) {
 		rec.Fail(t, "case", input{Spec: failed.p.src, Input: failed.text, Chunk: failed.chunk}, "%v", err)
 	}
 	rec.Count("boundary_sweep_cases", len(cases))
+}
+
+// characters of several bytes in reported tokens AND in skipped ones, in one input: offsets are counted in one unit
+func TestMixedWidthSkippedAndReported(t *testing.T) {
+	rec.Begin(t)
+	rec.Rule(rule + ruleMore)
+	if rec.Shard() != 0 {
+		t.Skip("seed independent: shard 0 only")
+	}
+	g := specGen{src: "grammar mixed;\nID = /[a-z][a-z0-9_]*/\nCJK = /[\\x4E2D\\x6587]+/\nEAC = /\\x00E9+/\nCOMMENT = /#[a-z \\x00E9\\x4E2D]*/\nWS = /[\\x20\\x09\\x0A\\x3000]+/\nstart = { ID | CJK | EAC | COMMENT | WS | \"=\" };\n"}
+	p, ok, err := prepare(g)
+	if err != nil || !ok {
+		t.Fatalf("harness: specification not accepted: %v", err)
+	}
+	texts := []string{
+		"中文 # café\nfoo 文 # 中\nbar", "é # é\né # éé\nx", "# 中中中\n中 = x", "a\u3000b 中\u3000\u3000é c", "é中é # caf\u00e9 \u4e2d\nzz = é",
+		"x # a\ny", "中", "# é", "é é é é # é é é\nlast",
+	}
+	var cases []caseT
+	for _, text := range texts {
+		nt, cls := classify(p, text)
+		rec.Case(p.src+"\x00"+text, nt, append(cls, "mixed_width_skipped_and_reported")...)
+		cases = append(cases, caseT{p, text, 0}, caseT{p, text, 3})
+	}
+	if failed, err := runBatch([]*prepared{p}, cases); err != nil {
+		if failed == nil {
+			t.Fatalf("harness: %v", err)
+		}
+		rec.Fail(t, "case", input{Spec: failed.p.src, Input: failed.text, Chunk: failed.chunk}, "%v", err)
+	}
 }
 
 func TestReplay(t *testing.T) {
